@@ -298,16 +298,31 @@ def run_cli(desc, casedir):
             sys.argv = ["hypnotoad-circular", "opts.yaml"]
             hypnotoad_circular.main()
             out = "bout.grd.nc"
-        elif entry == "roundtrip-cli":
+        elif entry in ("roundtrip-cli", "roundtrip-api-cli"):
             # geqdsk + yaml -> hypnotoad-geqdsk -> hypnotoad-recreate-inputs -> hypnotoad-geqdsk
+            # (roundtrip-api-cli: the first grid is built through the Python API from the same
+            # geqdsk file and option dictionary, as a script would)
             text = write_geqdsk_for(desc, os.path.join(casedir, "input.geqdsk"))
             with open(os.path.join(casedir, "opts.yaml"), "w") as f:
                 yaml.safe_dump(desc.get("options", {}), f)
             from hypnotoad.scripts import hypnotoad_geqdsk, hypnotoad_recreate_inputs
 
-            sys.argv = ["hypnotoad-geqdsk", "input.geqdsk", "opts.yaml"]
-            hypnotoad_geqdsk.main()
-            os.replace("bout.grd.nc", "grid.nc")
+            if entry == "roundtrip-cli":
+                sys.argv = ["hypnotoad-geqdsk", "input.geqdsk", "opts.yaml"]
+                hypnotoad_geqdsk.main()
+                os.replace("bout.grd.nc", "grid.nc")
+            else:
+                from hypnotoad.cases import tokamak as tokamak_
+                from hypnotoad.core.mesh import BoutMesh as BoutMesh_
+
+                opts_ = dict(desc.get("options", {}))
+                with open("input.geqdsk", "rt") as fh:
+                    eq_ = tokamak_.read_geqdsk(fh, settings=opts_, nonorthogonal_settings=opts_)
+                mesh_ = BoutMesh_(eq_, opts_)
+                mesh_.calculateRZ()
+                mesh_.geometry()
+                mesh_.writeGridfile("grid.nc")
+                del mesh_, eq_
             for fn in ("re.geqdsk", "re.yaml"):
                 if os.path.exists(fn):
                     os.unlink(fn)
